@@ -35,7 +35,15 @@ RULE = ("valid sentences from the BNF (types x qualifier multisets x orders x du
         "malformed neighbours (every substitution/insertion/deletion/case flip at every position of valid seeds, "
         "separators replaced by each of the 29 whitespace code points and look-alikes, numerals '+1' '-1' '1_0' ' 1' "
         "Arabic-Indic/full-width digits '1-2-3' '-' '' 5000 digits, unknown/empty keys, missing '=', ';;', trailing ';', "
-        "wrong-class types, visit/anchor of every type); non-trivial = the string is a valid sentence or within edit "
+        "wrong-class types, visit/anchor of every type); numeric positions other than lines - the version and each of the 40 "
+        "id digits, at top level and inside visit / anchor values - written with a non-ASCII digit or letter of the same value "
+        "(Arabic-Indic, Devanagari, full-width, mathematical, superscript, Cyrillic look-alikes); qualifier keys equal to the "
+        "constructor's other parameters (namespace, scheme_version, object_type, object_id, ...); percent-escapes where the "
+        "grammar has none (keys, '=', ';', ':', the values of visit / anchor / lines, the id, double escapes, %uXXXX); '+' in "
+        "origins and paths; very long sentences (thousands of qualifiers, 20000-character origins, 10000 escapes in a path, "
+        "over-long version / id fields); the same text as a str subclass; every string is parsed a second time by the three "
+        "Qualified and Core classes in the opposite order (memoised state between calls) and the second outcome is held to the same standard; "
+        "non-trivial = the string is a valid sentence or within edit "
         "distance 1 of one (accepted and rejected sides are both counted in the distribution); distinct = distinct string")
 TRUSTED = ["stdlib behaviour as modelled in coq/lib/Utf8.v, coq/lib/Percent.v, coq/model/Swhid.v (see C08); the "
            "whitespace table (29 code points) and the int()/str() digit limit are cross-checked against the running "
@@ -43,7 +51,9 @@ TRUSTED = ["stdlib behaviour as modelled in coq/lib/Utf8.v, coq/lib/Percent.v, c
 ASSUMPTIONS = ["duplicated qualifier keys: the effective (last) value is the one constrained (DESIGN section 7)",
                "a path qualifier must consist of Unicode scalar values (a lone surrogate is not an RFC 3987 character)",
                "numbers longer than sys.get_int_max_str_digits() digits are rejected although in the grammar: known "
-               "finding int-max-str-digits"]
+               "finding int-max-str-digits",
+               "the model is a pure function of the text: a str subclass instance stands for its text, and a second call with the "
+               "same text must have the first call's outcome (both are checked on the implementation)"]
 
 
 def S_of(c):
@@ -65,9 +75,9 @@ def hx40(rng):
 ORIGIN_VALUES = ["https://example.org/r.git", "a%20b", "a%3Bb", "%C3%A9", "%ff", "%zz", "%", "%%", "é", "a=b", "=",
                  "%E2%80%A8", "%C2%85x", "%09%0A%0B%0C%0D%1C%1D%1E%1F%20", "%C2%A0%E1%9A%80%E3%80%80", "\ud800",
                  "\U0001f600", "%25", "%253B", "%F0%9F%98%80", "%ED%A0%80", "%c3%a9", "x%C3", "%E2%82é", "", "~._-",
-                 "%E2%80%8B", "%00", "http://[::1]/?q=%2520"]
+                 "%E2%80%8B", "%00", "http://[::1]/?q=%2520", "a+b", "git+ssh://h/libstdc++?q=a+b%2Bc"]
 PATH_VALUES = ["/", "/a/b", "", "%00", "%FF%fe", "a%20b", "%zz", "%", "é", "/%E2%82%AC", "%41%4a%6F", "x=y", "/a%3Bb",
-               "\U0001f600", "%2", "%%41", "/あ", "%7e~"]
+               "\U0001f600", "%2", "%%41", "/あ", "%7e~", "/c++/a+b%2B"]
 LINES_VALUES = ["0", "1", "007", "5-10", "10-5", "0-0", "00-000", "1234567890123456789012345678901234567890",
                 "4-18446744073709551616"]
 BAD_DUP = {"origin": ["", "%"], "visit": ["foo", "swh:1:cnt:" + "0" * 40, ""], "anchor": ["x", "swh:1:ori:" + "1" * 40],
@@ -172,7 +182,105 @@ def structural(rng):
     for w in WS:
         out += [base + ";origin=a" + chr(w) + "b", base + ";origin=a" + urllib.parse.quote(chr(w)) + "b",
                 base + chr(w) + ";lines=1", base + ";lines=1" + chr(w), base + ";path=" + chr(w)]
+    out += alt_numerals(rng, h) + param_keys(rng, h) + stray_escapes(rng, h)
     return out
+
+
+def alts(ch):
+    """characters that int() / bytes.fromhex / a careless character class could take for `ch`"""
+    if ch in "0123456789":
+        d = int(ch)
+        a = [chr(0x660 + d), chr(0x6F0 + d), chr(0x966 + d), chr(0xFF10 + d), chr(0x1D7CE + d), chr(0x1D7EC + d)]
+        if d in (1, 2, 3):
+            a.append({1: "¹", 2: "²", 3: "³"}[d])
+        a.append(chr(0x2460 + d - 1) if d else "⓪")
+        return a
+    i = "abcdef".index(ch)
+    return [chr(0xFF41 + i), chr(0xFF21 + i), ch.upper()] + {"a": ["а", "ɑ"], "c": ["с", "ϲ"], "e": ["е"]}.get(ch, [])
+
+
+def alt_numerals(rng, h):
+    """the version and every id digit, spelled with another character of the same value"""
+    out = []
+    for head, tail in (("", ""), ("swh:1:cnt:%s;visit=" % hx40(rng), ";lines=1"), ("swh:1:dir:%s;anchor=" % hx40(rng), "")):
+        ty = "snp" if head else "cnt"
+        for a in alts("1") + ["l", "I", "|", "01", "1.0", "+1", "1_", "１１"]:
+            out.append(head + "swh:%s:%s:%s" % (a, ty, h) + tail)
+        for i in range(40):
+            if head and i not in (0, 39) and rng.random() < 0.7:
+                continue
+            al = alts(h[i])
+            for a in (al if i in (0, 39) and not head else [rng.choice(al)]):
+                out.append(head + "swh:1:%s:%s" % (ty, h[:i] + a + h[i + 1:]) + tail)
+    return out
+
+
+PARAM_KEYS = [("namespace", "swh"), ("scheme_version", "1"), ("object_type", "dir"), ("object_type", "cnt"), ("object_id", None),
+              ("qualifiers", "x"), ("swhid", None), ("self", "1"), ("cls", "1"), ("s", "1"), ("kwargs", "1"), ("metadata", "x"),
+              ("__class__", "x"), ("origin_url", "x"), ("core", None), ("Lines", "1"), ("line", "1"), ("visits", None)]
+
+
+def param_keys(rng, h):
+    base = "swh:1:cnt:" + h
+    out = []
+    for k, v in PARAM_KEYS:
+        for val in ([v] if v is not None else [hx40(rng), "swh:1:dir:" + hx40(rng)]):
+            out += [base + ";%s=%s" % (k, val), base + ";%s=%s;lines=1" % (k, val), base + ";origin=x;%s=%s" % (k, val)]
+    return out
+
+
+def pct(ch):
+    return "%%%02X" % ord(ch)
+
+
+def stray_escapes(rng, h):
+    """percent-escapes at places where the grammar has none: only the values of origin and path are percent-encoded"""
+    base = "swh:1:cnt:" + h
+    v = "swh:1:snp:" + hx40(rng)
+    a = "swh:1:rev:" + hx40(rng)
+    out = [base + pct(";") + "lines=1", base + ";lines" + pct("=") + "1", base + ";lines=1" + pct(";") + "origin=x",
+           base + ";lines=%2531", base + ";lines=%u0031", base + ";lines=1%2D2", base + ";lines=1-%32", base + ";lines=%31-2",
+           base + ";lines=1%00", base + ";lines=%201", base + ";lines=1%0A", "swh" + pct(":") + "1:cnt:" + h,
+           "swh:" + pct("1") + ":cnt:" + h, "swh:1:" + pct("c") + "nt:" + h, "swh:1:cnt" + pct(":") + h, pct("s") + "wh:1:cnt:" + h,
+           "swh:1:cnt:" + pct(h[0]) + h[1:], "swh:1:cnt:" + h[:39] + pct(h[39]), "swh:1:cnt:" + h[:38] + "%" + h[38:],
+           base + ";visit=" + v + pct(";") + "lines=1", base + ";origin=x" + pct(";") + "lines=1" + pct(";") + "path=/"]
+    for k in KEYS:
+        for i in range(len(k)):
+            out.append(base + ";" + k[:i] + pct(k[i]) + k[i + 1:] + "=1")
+            out.append(base + ";" + k[:i] + pct(k[i]).lower() + k[i + 1:] + "=" + {"visit": v, "anchor": a}.get(k, "1"))
+    for key, val in (("visit", v), ("anchor", a)):
+        for i in sorted(set(list(range(10)) + [rng.randrange(10, 50) for _ in range(6)] + [49])):
+            out.append(base + ";%s=%s" % (key, val[:i] + pct(val[i]) + val[i + 1:]))
+            out.append(base + ";%s=%s;lines=4" % (key, val[:i] + pct(val[i]).lower() + val[i + 1:]))
+        out.append(base + ";%s=%s" % (key, "".join(pct(ch) for ch in val)))
+        out.append(base + ";%s=%s" % (key, val.replace(":", "%3A")))
+        out.append(base + ";%s=%s" % (key, val.replace(":", "%3a")))
+    for ln in ("12", "4-12", "0", "007-010"):
+        for i in range(len(ln)):
+            out.append(base + ";lines=" + ln[:i] + pct(ln[i]) + ln[i + 1:])
+        out.append(base + ";lines=" + "".join(pct(ch) for ch in ln))
+        out.append(base + ";origin=x;lines=" + "".join(pct(ch) for ch in ln) + ";path=/")
+    return out
+
+
+def long_sentences(rng, tier):
+    """compact cases (pre + ch * n + post) for sentences of tens of thousands of characters"""
+    h = hx40(rng)
+    base = "swh:1:cnt:" + h
+    k = 1 if tier == "quick" else 4
+    L = [(base, ";lines=1", 2000 * k, ""), (base, ";lines=1", 1500 * k, ";lines=x"), (base, ";origin=x;origin=%20", 700 * k, ""),
+         (base + ";origin=", "é", 20000 * k, ""), (base + ";origin=", "%20", 1200 * k, ";lines=3"),      # (the model's escaping
+         (base + ";origin=", "%3B", 1500 * k, ""), (base + ";origin=", "%C3%A9%E2%80%A8", 400 * k, ""),  #  is quadratic)
+         (base + ";path=", "%41", 10000 * k, ""), (base + ";path=", "%ff/", 4000 * k, ""), (base + ";path=/", "é", 8000 * k, ""),
+         (base, ";", 3000 * k, ""), (base + ";", "=", 3000 * k, ""), (base + ";lines", "=", 3000 * k, "1"),
+         (base + ";origin", "=", 3000 * k, ""), (base + ";x", "y", 5000 * k, "=1"), (base + ";lines=1;", "x", 5000 * k, ""),
+         ("swh:1:cnt:", "0", 4000 * k, ""), ("swh:1:cnt:" + h, "0", 5000, ""), ("swh:", "1", 5000, ":cnt:" + h),
+         ("swh:", "0", 4400, "1:cnt:" + h), ("swh:1", ":", 5000, "cnt:" + h), ("swh:1:", "cnt", 3000, ":" + h),
+         (base + ";visit=swh:", "1", 5000, ":snp:" + h), (base + ";anchor=swh:1:dir:" + h, "0", 5000, ""),
+         (base + ";lines=", "0", LIM - 1, "1-2"), (base + ";lines=1-", "0", LIM, ""), (base + ";lines=1-", "0", LIM + 1, ""),
+         (base + ";lines=", "1-", 3000, "1"), (base + ";visit=swh:1:snp:" + h, ";visit=swh:1:snp:" + hx40(rng), 300 * k, ""),
+         (base + " ", "x", 5000, ""), (base + ";origin=", "\ud800", 5000 * k, ""), (base + ";path=", "\U0001f600", 5000 * k, "")]
+    return [{"k": "srep", "pre": pre, "ch": ch, "n": n, "post": post} for pre, ch, n, post in L]
 
 
 STDLIB_TEXTS = ["a%20b", "%", "%%", "%2", "%zz", "%C3%A9", "%c3%a9", "é%C3%A9é", "%C3é%A9", "%E2%82", "%E2%82%AC", "%F0%9F%98",
@@ -237,6 +345,11 @@ def gen(rng, tier):
         muts = rng.sample(muts, budget)
     for m in muts:
         S(m)
+    cases += long_sentences(rng, tier)
+    # the same text handed over as a str subclass
+    strs = [c for c in cases if c["k"] == "s"]
+    for c in rng.sample(strs, min(len(strs), 400 if tier == "quick" else 20000)):
+        cases.append({"k": "s", "s": c["s"], "sub": True})
     return cases
 
 
@@ -263,16 +376,28 @@ def classify(c):
         ks.append("has-surrogate")
     if len(s) > 1000:
         ks.append("long")
-    try:
-        from swh.model.swhids import QualifiedSWHID
-        QualifiedSWHID.from_string(uncps(s))
-        ks.append("accepted-by-qualified")
-    except Exception:
-        ks.append("rejected-by-qualified")
+    if c.get("sub"):
+        ks.append("str-subclass")
+    acc = _ACCEPTED.pop(id(c), None)          # left by impl() for this very case object
+    if acc is None:
+        try:
+            from swh.model.swhids import QualifiedSWHID
+            QualifiedSWHID.from_string(uncps(s))
+            acc = True
+        except Exception:
+            acc = False
+    ks.append("accepted-by-qualified" if acc else "rejected-by-qualified")
     return ks
 
 
 # ---------------------------------------------------------------- implementation
+class _S(str):
+    pass
+
+
+_ACCEPTED = {}      # id(case) -> QualifiedSWHID accepted it (impl() -> classify(), same batch; bounded)
+
+
 def _parse(cls, s, fields):
     try:
         v = cls.from_string(s)
@@ -306,6 +431,8 @@ def impl(c):
             return {"out": "err"}
     from swh.model.swhids import CoreSWHID, ExtendedSWHID, QualifiedSWHID
     s = uncps(S_of(c))
+    if c.get("sub"):
+        s = _S(s)
     res = {}
     res["C"], _ = _parse(CoreSWHID, s, fields_core)
     res["X"], _ = _parse(ExtendedSWHID, s, fields_core)
@@ -322,6 +449,15 @@ def impl(c):
         if p is not None:
             res["RR"], v2 = _parse(QualifiedSWHID, p, fields_q)
             res["req"] = v2 is not None and v2 == v and hash(v2) == hash(v)
+    # the same string once more, classes in the opposite order: what a first call left behind must not matter
+    res["again"] = {}
+    res["again"]["Q"], v3 = _parse(QualifiedSWHID, s, fields_q)
+    res["again"]["C"], _ = _parse(CoreSWHID, s, fields_core)
+    if v is not None:
+        res["again"]["eq"] = v3 is not None and v3 == v and hash(v3) == hash(v)
+    if len(_ACCEPTED) > 5000:
+        _ACCEPTED.clear()
+    _ACCEPTED[id(c)] = v is not None
     return res
 
 
@@ -358,16 +494,22 @@ def oracle(c, ires, mres):
         return None
     s = S_of(c)
     names = {"C": "CoreSWHID", "X": "ExtendedSWHID", "Q": "QualifiedSWHID"}
-    for x in "CXQ":
-        r = ires[x]
-        if "error" in r and r["error"] != "ValidationError":
-            return "%s.from_string raised %s instead of ValidationError" % (names[x], r["error"])
-    for x in "CXQ":
-        acc = "ok" in ires[x]
-        if acc and not mres["lang"][x]:
-            return "%s.from_string accepts a string outside the documented language" % names[x]
-        if not acc and mres["lang"][x]:
-            return "%s.from_string rejects a string of the documented language" % names[x]
+    for rs, when in ((ires, ""), (ires.get("again") or {}, " (second parse of the same string)")):
+        for x in "CXQ":
+            r = rs.get(x)
+            if r is not None and "error" in r and r["error"] != "ValidationError":
+                return "%s.from_string raised %s instead of ValidationError%s" % (names[x], r["error"], when)
+        for x in "CXQ":
+            if rs.get(x) is None:
+                continue
+            acc = "ok" in rs[x]
+            if acc and not mres["lang"][x]:
+                return "%s.from_string accepts a string outside the documented language%s" % (names[x], when)
+            if not acc and mres["lang"][x]:
+                return "%s.from_string rejects a string of the documented language%s" % (names[x], when)
+    ag = ires.get("again") or {}
+    if "ok" in ires["Q"] and "ok" in ag.get("Q", {}) and (ag["Q"]["ok"] != ires["Q"]["ok"] or not ag.get("eq")):
+        return "parsing the same string twice gives two different values"
     if "ok" in ires["Q"]:
         p = ires["P"]
         if "ok" not in p:
@@ -402,6 +544,9 @@ def compare(c, ires, mres):
     for k in ("C", "X", "Q", "P", "RR"):
         if ires.get(k) != mres.get(k):
             return "%s differs: implementation %s, model %s" % (k, K.canon(ires.get(k))[:300], K.canon(mres.get(k))[:300])
+    for k in ("C", "X", "Q"):
+        if (ires.get("again") or {}).get(k, mres.get(k)) != mres.get(k):
+            return "%s differs on the second parse: implementation %s, model %s" % (k, K.canon(ires["again"][k])[:300], K.canon(mres.get(k))[:300])
     return None
 
 
@@ -419,6 +564,10 @@ def shrink(c):
                 d = dict(c)
                 d["n"] = n
                 yield d
+        return
+    if c["k"] == "s" and c.get("sub"):
+        for d in shrink({"k": "s", "s": c["s"]}):
+            yield dict(d, sub=True)
         return
     if c["k"] == "s":
         s = c["s"]
